@@ -10,7 +10,7 @@ from vlib.elfw import disassemble_object
 from vlib.gen_bytes import build_object, objects
 from vlib.gen_listing import att_view
 from vlib.gen_macro import factor, split_definitions
-from vlib.gen_rules import SHIPPED_MACROS, broad_cases
+from vlib.gen_rules import SHIPPED_MACROS, broad_cases, broad_text
 from vlib.refnorm import classify_line
 from vlib.render import render
 from vlib.runner import Eval
@@ -45,7 +45,7 @@ def cases(draw):
     c = {"kind": kind, "src": src, "opts": opts}
     if src == "broad":
         b = draw(broad_cases(max_len=10))
-        c.update({"listing": b["listing"], "pattern": b["pattern"], "shipped": b["macros"], "cont": b["cont"], "flags": b["flags"]})
+        c.update({"listing": b["listing"], "pattern": b["pattern"], "shipped": b["macros"], "cont": b["cont"], "flags": b["flags"], "section_breaks": b.get("section_breaks", []), "sections_cfg": b.get("sections_cfg")})
     elif src == "macro-files":
         L, pattern = draw(base_rule())
         factored, macros, kinds = factor(draw, pattern)
@@ -109,7 +109,7 @@ def evaluate(case):
     macros = None
     doc_macros = None
     if case["src"] == "broad":
-        input_path = sc.write("c20.s", render(att_view(case["listing"]), cont=set(case.get("cont", ()))))
+        input_path = sc.write("c20.s", broad_text(case))
         pattern = case["pattern"]
         macros = [SHIPPED_MACROS] if case["shipped"] else None
     elif case["src"] == "macro-files":
@@ -137,7 +137,7 @@ def evaluate(case):
         input_path, ctag = contain(sc, input_path, case)
         ev.tags.append(ctag)
     mn_full, op_full = case.get("flags", [False, False])
-    doc = jasm_io.make_doc(pattern, mn_full or None, op_full or None, macros=doc_macros)
+    doc = jasm_io.make_doc(pattern, mn_full or None, op_full or None, macros=doc_macros, config={"sections": case["sections_cfg"]} if case.get("sections_cfg") else None)
     rule_path = sc.write("c20_rule.yaml", jasm_io.rule_text(doc))
     api_cwd = None
     if case.get("relpaths") and case["src"] == "macro-files" and kind == "match":
